@@ -22,7 +22,10 @@ func c09Configs(tier string) []c09.Bounds {
 	}
 	// large validator sets with a big shrink (the recents window must survive the set switch)
 	out = append(out, c09.Bounds{N: 9, Epoch: 6, Depth: 8, U: 10, Big: true, GenesisShrink: 3}, c09.Bounds{N: 8, Epoch: 5, Depth: 8, U: 10, Big: true, GenesisShrink: 2},
-		c09.Bounds{N: 9, Epoch: 6, Depth: 7, U: 10, Big: true})
+		c09.Bounds{N: 9, Epoch: 6, Depth: 7, U: 10, Big: true},
+		// the start header announces a rotated set (validator 0 out, an outsider in): installed by create and by the real upgrade
+		c09.Bounds{N: 3, Epoch: 4, Depth: 7, Rotate: true}, c09.Bounds{N: 3, Epoch: 4, Depth: 7, Rotate: true, ViaUpgrade: true}, c09.Bounds{N: 2, Epoch: 3, Depth: 7, Rotate: true, ViaUpgrade: true},
+		c09.Bounds{N: 8, Epoch: 5, Depth: 7, U: 10, Big: true, GenesisShrink: 2, ViaUpgrade: true})
 	return out
 }
 
@@ -45,7 +48,7 @@ func init() {
 			states += res.States
 			trans += res.Transitions
 			traces += res.Traces
-			r.Count(fmt.Sprintf("states_N%d_E%d_shrink%d", b.N, b.Epoch, b.GenesisShrink), res.States)
+			r.Count(fmt.Sprintf("states_N%d_E%d_shrink%d_rotate%v_upgrade%v", b.N, b.Epoch, b.GenesisShrink, b.Rotate, b.ViaUpgrade), res.States)
 			if !res.Exhaustive {
 				exhaustive = false
 				r.Incomplete(res.Incomplete)
